@@ -111,6 +111,31 @@ import hashlib
 EXEMPT = re.compile(r"impl[^/]*\b(fmt :: Debug|fmt :: Display|Debug|Display|Error|Serialize|Deserialize < 'de >)\b[^/]* for ")
 
 
+# A formatting impl is exempt only while it is evidently PURE: a `fmt` that takes a waker out of a cell "while it is being
+# formatted" and loses it on the error path (seeded RDC17) changes behaviour like any other function.
+_MUTATORS = {"take", "set", "replace", "swap", "borrow_mut", "get_mut", "as_mut", "push", "push_back", "push_front", "pop",
+             "pop_front", "pop_back", "insert", "remove", "clear", "drain", "truncate", "store", "fetch_add", "fetch_sub",
+             "lock", "send", "wake", "register", "forget", "update", "advance", "split_to", "split_off", "extend"}
+_impure = set()      # (path, label) of formatting impls whose body is not evidently pure (filled by all_fns)
+
+
+def _evidently_pure(toks):
+    prev = None
+    for t in toks:
+        if t.kind in ("ws", "comment"):
+            continue
+        if t.kind == "ident" and prev is not None and prev.text == "." and t.text in _MUTATORS:
+            return False
+        if t.kind == "ident" and t.text in ("unsafe", "mem"):
+            return False
+        prev = t
+    return True
+
+
+def is_exempt(path, label):
+    return bool(EXEMPT.search(label + " ")) and (path, label) not in _impure
+
+
 def all_fns(path):
     s = Source(path)
     out = {}
@@ -125,6 +150,8 @@ def all_fns(path):
                 label = " / ".join(trail + [name])
                 text = re.sub(r"\s+", " ", " ".join(t.text for t in s.toks[it.start:it.body_close + 1] if t.kind not in ("ws", "comment")))
                 out[label] = (hashlib.sha256(text.encode()).hexdigest()[:16], it.start)
+                if EXEMPT.search(label + " ") and it.body_open is not None and not _evidently_pure(s.toks[it.body_open:it.body_close + 1]):
+                    _impure.add((path, label))
             elif h[0] in ("impl", "mod", "trait"):
                 if h[0] == "mod" and len(h) > 1 and h[1] in ("tests", "test", "verif_kani"):
                     continue
@@ -191,7 +218,7 @@ def uncontracted_table(repo, files):
             continue
         fns, _ = all_fns(path)
         for label, (sha, start) in fns.items():
-            if EXEMPT.search(label + " "):
+            if is_exempt(path, label):
                 continue
             if start in vc.get(f, set()):
                 continue
@@ -246,6 +273,20 @@ def modified_uncontracted(pid, repo, cfg, props):
                 continue
             if label in fns and fns[label][0] != sha:
                 out.append(f"{f}: {label}")
+    # formatting impls are exempt from the table — unless one has been changed into something that is no longer evidently
+    # pure (it calls a mutator such as take / set / replace / borrow_mut)
+    allh = load().get("__all__", {})
+    for f in files_of_property(pid, cfg, props):
+        path = os.path.join(repo, f)
+        if f not in allh or not os.path.exists(path):
+            continue
+        try:
+            fns, _ = all_fns(path)
+        except Exception:
+            continue
+        for label, (sha, _) in fns.items():
+            if EXEMPT.search(label + " ") and (path, label) in _impure and allh[f].get(label) != sha:
+                out.append(f"{f}: {label} (a formatting impl that is no longer evidently pure)")
     return out
 
 
@@ -301,7 +342,7 @@ def changed_outside_own_units(pid, repo, cfg, props):
             fns, _ = all_fns(os.path.join(repo, f))
         except Exception:
             continue
-        changed = [l for l, (sha, _) in fns.items() if l in inv[f] and inv[f][l] != sha and not EXEMPT.search(l + " ")]
+        changed = [l for l, (sha, _) in fns.items() if l in inv[f] and inv[f][l] != sha and not is_exempt(os.path.join(repo, f), l)]
         if not changed:
             continue
         covered = set()
